@@ -191,16 +191,30 @@ func vfMsgToken(m *dnsmsg.Msg) (uint32, bool) {
 var vfC16Tok uint32
 
 func TestVfC16Fallback(t *testing.T) {
-	st := vfkit.Stats("TestVfC16Fallback", "queries x UDP reply (TC on/off, rcode 0-5, 0-3 extra records) x TCP leg outcome (distinct reply, reply with TC, error rcode, close, silence until the deadline), in one case of twelve with the UDP reply arriving 20-190 ms before the deadline, against a fake server on one UDP+TCP port; oracle: TC=0 => UDP reply returned, no TCP query; TC=1 => TCP leg receives the same query and the caller gets exactly the TCP outcome; non-trivial = UDP reply has TC")
+	st := vfkit.Stats("TestVfC16Fallback", "queries x UDP reply (TC on/off, rcode 0-5, 0-3 extra records) x TCP leg outcome (distinct reply, reply with TC, error rcode, close, silence until the deadline), in one case of twelve with the UDP reply arriving 20-190 ms before the deadline, against a fake server on one UDP+TCP port, addressed directly or through dial_addr (URL host = an address where nothing listens); oracle: TC=0 => UDP reply returned, no TCP query; TC=1 => TCP leg receives the same query and the caller gets exactly the TCP outcome; non-trivial = UDP reply has TC")
 	defer vfkit.Flush()
 	srv := vfNewC16Server(t)
 	defer srv.close()
-	u, err := upstream.NewUpstream("udp://"+srv.addr, upstream.Opt{})
+	uDirect, err := upstream.NewUpstream("udp://"+srv.addr, upstream.Opt{})
 	if err != nil {
 		t.Fatalf("NewUpstream: %v", err)
 	}
-	defer u.Close()
+	defer uDirect.Close()
+	// the same server reached through dial_addr: the URL names a host where nothing listens (another loopback address,
+	// same port), so a leg that dials the URL host instead of dial_addr fails
+	_, port, _ := net.SplitHostPort(srv.addr)
+	uViaDialAddr, err := upstream.NewUpstream("udp://127.0.0.9:"+port, upstream.Opt{DialAddr: srv.addr})
+	if err != nil {
+		t.Fatalf("NewUpstream: %v", err)
+	}
+	defer uViaDialAddr.Close()
+	uNoScheme, err := upstream.NewUpstream("127.0.0.9:"+port, upstream.Opt{DialAddr: "127.0.0.1:" + port})
+	if err != nil {
+		t.Fatalf("NewUpstream: %v", err)
+	}
+	defer uNoScheme.Close()
 	rapid.Check(t, func(t *rapid.T) {
+		u := []upstream.Upstream{uDirect, uViaDialAddr, uNoScheme}[rapid.IntRange(0, 2).Draw(t, "upstreamForm")]
 		vfC16Tok++
 		tok := vfC16Tok
 		sc := &vfC16Script{
